@@ -26,14 +26,26 @@ pub struct Store {
 proof fn lemma_top(recs: Seq<Record>, limit: usize)
     requires forall|k: int| 0 <= k < recs.len() ==> (#[trigger] recs[k]).ix == k,
         ls_spec(rec_refs(recs), limit, CmpRecords).len() == (if recs.len() < limit { recs.len() } else { limit as nat }),
-        exists|idx: Seq<int>| selection(ls_spec(rec_refs(recs), limit, CmpRecords), rec_refs(recs), idx),
+        exists|idx: Seq<int>| selection(ls_spec(rec_refs(recs), limit, CmpRecords), rec_refs(recs), idx) && ls_best(ls_spec(rec_refs(recs), limit, CmpRecords), rec_refs(recs), idx, CmpRecords),
+        ls_sorted(ls_spec(rec_refs(recs), limit, CmpRecords), CmpRecords),
     ensures top_post(recs.len() as int, limit as int, spec_top(recs, limit)),
+        top_ordered(recs, spec_top(recs, limit)), // [C12]
 {
     let sel = ls_spec(rec_refs(recs), limit, CmpRecords);
-    let idx = choose|idx: Seq<int>| selection(sel, rec_refs(recs), idx);
+    let idx = choose|idx: Seq<int>| selection(sel, rec_refs(recs), idx) && ls_best(sel, rec_refs(recs), idx, CmpRecords);
     let r = spec_top(recs, limit);
-    assert forall|k: int| 0 <= k < r.len() implies #[trigger] r[k] == idx[k] by { assert(sel[k] == rec_refs(recs)[idx[k]]); }
+    assert forall|k: int| 0 <= k < r.len() implies #[trigger] r[k] == idx[k] && sel[k] == &recs[idx[k]] by { assert(sel[k] == rec_refs(recs)[idx[k]]); }
     assert forall|a: int, b: int| 0 <= a < r.len() && 0 <= b < r.len() && a != b implies r[a] != r[b] by { assert(idx[a] != idx[b]); }
+    assert forall|a: int, b: int| 0 <= a <= b < r.len() implies rec_le(&recs[#[trigger] r[a] as int], &recs[#[trigger] r[b] as int]) by {
+        assert(ls_le::<&Record, CmpRecords>(CmpRecords, sel[a], sel[b]));
+        lax::ls_le_records(sel[a], sel[b]);
+    }
+    assert forall|j: int| 0 <= j < recs.len() && !#[trigger] r.contains(j as usize) && r.len() > 0 implies rec_le(&recs[r.last() as int], &recs[j]) by {
+        if idx.contains(j) { let k = choose|k: int| 0 <= k < idx.len() && idx[k] == j; assert(r[k] == j as usize); }
+        assert(ls_le::<&Record, CmpRecords>(CmpRecords, sel.last(), rec_refs(recs)[j]));
+        lax::ls_le_records(sel.last(), rec_refs(recs)[j]);
+        assert(sel.last() == &recs[r.last() as int]) by { assert(sel[sel.len() - 1] == &recs[idx[sel.len() - 1]]); }
+    }
 }
 // @item rust/core/src/store/store.rs :: impl Store
 impl Store {
@@ -94,6 +106,8 @@ impl Store {
             ret@ == spec_top(final(self).records@, final(self).limit), // [C10 C12]
             // C12 / C06: min(limit, number of records) positions of existing records, none twice
             top_post(final(self).records@.len() as int, final(self).limit as int, ret@), // [C12 C06]
+            // C12: in the order (rating descending, normalised title ascending), and no record left out is before the last listed one
+            top_ordered(final(self).records@, ret@), // [C12]
             final(self).records@ == old(self).records@, final(self).limit == old(self).limit,
     {
         let top_ixs = &mut self.top_ixs;
@@ -131,7 +145,7 @@ impl Store {
                 let __cur = r.ix;
                 __out0.push(__cur);
             }
-            proof { assert(__out0@ =~= spec_top(recs, self.limit)); lemma_top(recs, self.limit); }
+            proof { lemma_ls_ok_records(); assert(__out0@ =~= spec_top(recs, self.limit)); lemma_top(recs, self.limit); }
             __out0
         };
         *top_ixs = Some((self.limit, ixs.clone()));
